@@ -112,6 +112,66 @@ def py_mode(temp, f_ev, classical):
                     float(TP.mode_cv(temp, a, classical=classical)[0]), float(TP.mode_ZPE(temp, a, classical=classical)[0]))
 
 
+def ref_thermal(units, fr_thz, w, temps, cut=None, pretend=False, bi=None, classical=False):
+    """Documented closed forms (doc/formulation: F = sum[h nu/2 + kT ln(1 - e^-x)], S = k sum[x/(e^x - 1) - ln(1 - e^-x)],
+    C_V = k sum[x^2 e^x/(e^x - 1)^2]; classical: F = kT ln x, S = k(1 - ln x), C_V = k) summed over the modes above the cutoff with the
+    q-point weights, divided by the weight sum, in kJ/mol and J/K/mol — written independently of phonopy (expm1 / log1p forms).
+    Returns (temperatures kept, F, S, Cv, conditioning allowance per temperature, scale of F, scale of S)."""
+    fr = np.array(fr_thz, dtype="double")
+    if bi is not None:
+        fr = fr[:, list(np.hstack(bi).astype(int))]
+    if pretend:
+        fr = np.abs(fr)
+    f = fr * units.THzToEv
+    cut_ev = 0.0 if (cut is None or cut < 0) else cut * units.THzToEv
+    sel = f > cut_ev
+    wq = np.array(w, dtype="double")[:, None] * np.ones_like(f)
+    fs, ws = f[sel], wq[sel]
+    wsum = float(np.sum(w))
+    kept = [float(t) for t in temps if not (t < 0)]
+    k = units.Kb
+    F, S, C, ex = [], [], [], []
+    with np.errstate(all="ignore"):
+        for t in kept:
+            if not t > 0:
+                F.append(0.0 if classical else float(np.sum(ws * fs / 2)))
+                S.append(0.0)
+                C.append(0.0)
+                ex.append(0.0)
+                continue
+            x = fs / (k * t)
+            if classical:
+                F.append(float(np.sum(ws * k * t * np.log(x))))
+                S.append(float(np.sum(ws * k * (1 - np.log(x)))))
+                C.append(float(np.sum(ws * k)))
+            else:
+                l1 = np.log(-np.expm1(-x))
+                F.append(float(np.sum(ws * (k * t * l1 + fs / 2))))
+                S.append(float(np.sum(ws * k * (x * np.exp(-x) / (-np.expm1(-x)) - l1))))
+                C.append(float(np.sum(ws * k * (x * np.exp(-x) / (-np.expm1(-x))) * (x / (-np.expm1(-x))))))
+            ex.append(cond(float(x.min())) if x.size else 0.0)
+    conv = units.EvTokJmol
+    nint = float(ws.sum())
+    scF = [conv / wsum * max(float(np.sum(ws * np.abs(fs))) if fs.size else 0.0, k * t * nint, 1e-30) for t in kept]
+    scS = conv * 1000 * k * max(1.0, nint) / wsum
+    return (kept, np.array(F) / wsum * conv, np.array(S) / wsum * conv * 1000, np.array(C) / wsum * conv * 1000, ex, scF, scS)
+
+
+def against_closed_form(run, units, site, klass, got, fr_thz, w, temps, info, **opts):
+    """got = (temperatures, F, S, Cv) of the implementation; returns True if it equals the closed forms for these options"""
+    kept, F, S, C, ex, scF, scS = ref_thermal(units, fr_thz, w, temps, **opts)
+    t_, f_, s_, c_ = [np.asarray(a, dtype="double") for a in got]
+    if len(t_) != len(kept) or any(fb(a) != fb(b) for a, b in zip(t_, kept)):
+        run.violation(site, klass, "temperatures %r, expected %r" % (t_.tolist()[:6], kept[:6]), info)
+        return False
+    for i, t in enumerate(kept):
+        for nm, a, b, fl in (("free energy", f_[i], F[i], scF[i]), ("entropy", s_[i], S[i], scS), ("heat capacity", c_[i], C[i], scS)):
+            if not same(float(a), float(b), fl, ex[i]):
+                run.violation(site, klass, "%s at T=%r: %r, documented closed form for the options of this call: %r" % (nm, t, float(a), float(b)), dict(T=t, **info))
+                return False
+    return True
+
+
 def gen_mesh_case(rng, thorough):
     nq = rng.randint(1, 6)
     nb = rng.choice([1, 2, 3, 6, 6, 9, 12])
@@ -264,14 +324,19 @@ def main(run):
     lines.append("consts")
     meta.append(("consts", None))
     # oracle on the implementation: the C literal is the Python constant; derived units as documented
-    if kb_c != units.Kb:
-        run.violation("c/phonopy.c #define KB", "kb-literal-differs", "KB literal %r != phonopy.units.Kb %r" % (kb_c, units.Kb),
+    # (audit) bit-identity of the C literal and of the derived constants is a statement about the model of the code (the generated
+    # constants are compared bit by bit in the correspondence step); the PROPERTY needs the two paths to use the same Boltzmann
+    # constant and the documented unit products only up to rounding, so only that is a violation here.
+    run.cov["oracle"]["KB literal bit-identical to units.Kb"] = bool(kb_c == units.Kb)
+    if not abs(kb_c / units.Kb - 1) <= 1e-12:
+        run.violation("c/phonopy.c #define KB", "unit-value", "KB literal %r differs from phonopy.units.Kb %r by more than rounding: compiled and Python paths use different Boltzmann constants" % (kb_c, units.Kb),
                       dict(KB=kb_c, Kb=units.Kb))
     for name, val, ref in (("Kb", units.Kb, 8.617338e-5), ("THzToEv", units.THzToEv, 4.135667e-3), ("EvTokJmol", units.EvTokJmol, 96.48534)):
         if abs(val / ref - 1) > 2e-6:
             run.violation("phonopy.units." + name, "unit-value", "%s = %r, expected %r" % (name, val, ref), dict(name=name, value=val))
-    if units.THzToEv != units.PlanckConstant * 1e12 or units.EvTokJmol != units.EV / 1000 * units.Avogadro or units.Kb != units.kb_J / units.EV:
-        run.violation("phonopy.units", "unit-definition", "derived constants are not the documented products", {})
+    for name, val, ref in (("THzToEv", units.THzToEv, units.PlanckConstant * 1e12), ("EvTokJmol", units.EvTokJmol, units.EV * units.Avogadro / 1000), ("Kb", units.Kb, units.kb_J / units.EV)):
+        if not abs(val / ref - 1) <= 1e-12:
+            run.violation("phonopy.units." + name, "unit-value", "%s = %r is not the documented product %r" % (name, val, ref), dict(name=name, value=val))
     run.count("oracle-units", section="oracle")
 
     # ---------------------------------------------------------------- per-mode grid
@@ -310,6 +375,23 @@ def main(run):
         lines.append(mesh_request(cb))
         meta.append(("mesh", cb))
         run.count("nq=%d" % nq_big if nq_big in (1, 2, 255, 256, 257, 511, 513, 1000, 2047, 2049, 4097) else "nq in 300..600")
+
+    # sizes over orders of magnitude, C kernel and Python path against the documented closed forms (no Lean model: cheap numpy reference)
+    big = [(rng.randint(1500, 5000), rng.choice([1, 2, 3]), 3), (1, 1, 1), (1, rng.choice([211, 600]), 2), (rng.choice([7, 13]), 7, rng.choice([97, 500])),
+           (rng.choice([1031, 1499]), 1, 2)] + ([(rng.randint(5000, 20000), 3, 4), (3, 3000, 3), (2, 2, 5000)] if thorough else [])
+    for (nq_, nb_, nt_) in big:
+        frb = np.array([[rng.uniform(0.3, 20.0) * (-1 if rng.random() < 0.02 else 1) for _ in range(nb_)] for _ in range(nq_)])
+        wb = [rng.randint(1, 48) for _ in range(nq_)]
+        tb = sorted([0.0] + [rng.uniform(5, 1500) for _ in range(nt_ - 1)]) if nt_ > 1 else [rng.uniform(50, 500)]
+        optb = dict(cut=rng.choice([None, 0.5]), pretend=rng.random() < 0.2, classical=rng.random() < 0.2)
+        infob = dict(style="size-sweep", nq=nq_, nb=nb_, nt=nt_, weights="random integers 1..48 (seeded)", first_weights=wb[:8], cutoff=optb["cut"], pretend_real=optb["pretend"],
+                     classical=optb["classical"], temperatures=tb[:8], first_frequencies_THz=frb[:2].tolist() if nb_ < 10 else frb[0, :8].tolist())
+        for lang in ("C", "Py"):
+            tp_, t__, f__, s__, c__ = run_tp(FakeMesh(frb, wb), tb, lang, cutoff_frequency=optb["cut"], pretend_real=optb["pretend"], classical=optb["classical"])
+            against_closed_form(run, units, "ThermalProperties.run(lang='%s')" % lang, "closed-form", (t__, f__, s__, c__), frb, wb, tb, dict(lang=lang, **infob), **optb)
+        run.case(("size-sweep", nq_, nb_, nt_, frb.tobytes(), tuple(wb[:50])), nontrivial=True)
+        run.count("size-sweep nq~1e%d nb~1e%d nt~1e%d" % (int(math.log10(nq_)), int(math.log10(nb_)), int(math.log10(nt_))))
+        run.count("oracle-closed-form", section="oracle")
 
     # the generated loop nest of phpy_get_thermal_properties vs the compiled kernel itself (eV units, no Python layer)
     import phonopy._phonopy as phonoc
@@ -445,6 +527,44 @@ def main(run):
             e2 = np.abs(ph.mesh.eigenvectors) ** 2
             lines.append(proj_request(kw["classical"], kw["pretend_real"], kw["cutoff_frequency"], c["w"], ph.mesh.frequencies, e2, None, temps))
             meta.append(("proj", (tpo._projected_thermal_properties, dict(cell=name, mesh=msh, kw=kw, totals={k_: np.array(v_) for k_, v_ in d.items()}))))
+        # ---- call SEQUENCE on this one object and one mesh: one option changes per call, every call against the closed forms
+        #      for the options of THAT call (a result cached from an earlier call with other options shows at once)
+        frm, wm = np.array(ph.mesh.frequencies), list(map(int, ph.mesh.weights))
+        cur = dict(cutoff_frequency=None, pretend_real=False, band_indices=None, is_projection=False, classical=False)
+        tcur = dict(temperatures=[0.0, 3.0, 90.0, 700.0])
+        steps = [("start", {}), ("classical", dict(classical=True)), ("classical", dict(classical=False)), ("cutoff_frequency", dict(cutoff_frequency=rng.choice([0.8, 2.0]))),
+                 ("classical", dict(classical=True)), ("pretend_real", dict(pretend_real=True)), ("band_indices", dict(band_indices=[sorted(rng.sample(range(nb), rng.randint(1, nb)))])),
+                 ("classical", dict(classical=False)), ("temperatures", None), ("grid", None), ("classical", dict(classical=True)), ("band_indices", dict(band_indices=None)),
+                 ("cutoff_frequency", dict(cutoff_frequency=None)), ("classical", dict(classical=False))]
+        if proj:
+            steps += [("is_projection", dict(is_projection=True)), ("classical", dict(classical=True)), ("is_projection", dict(is_projection=False))]
+        hist = []
+        for (what, chg) in steps:
+            if what == "temperatures":
+                tcur = dict(temperatures=sorted(rng.uniform(1, 1200) for _ in range(4)))
+            elif what == "grid":
+                tcur = dict(t_min=rng.choice([0, 100]), t_max=rng.choice([400, 650.0]), t_step=rng.choice([50, 110]))
+            else:
+                cur.update(chg)
+            hist.append((what, None if chg is None else dict(chg)))
+            with warnings.catch_warnings():
+                warnings.simplefilter("ignore")
+                with np.errstate(all="ignore"):
+                    ph.run_thermal_properties(**tcur, **cur)
+            dd = ph.get_thermal_properties_dict()
+            if "temperatures" in tcur:
+                texp = tcur["temperatures"]
+            else:
+                texp = list(np.arange(tcur["t_min"], tcur["t_max"] + tcur["t_step"] / 2.0, tcur["t_step"], dtype="double"))
+            ok_ = against_closed_form(run, units, "Phonopy.run_thermal_properties (call sequence on one object)", "call-sequence",
+                                      (dd["temperatures"], dd["free_energy"], dd["entropy"], dd["heat_capacity"]), frm, wm, texp,
+                                      dict(cell=name, mesh=msh, changed_in_this_call=what, options=dict(cur), temperature_arguments={k_: (list(v_) if isinstance(v_, list) else v_) for k_, v_ in tcur.items()},
+                                           history=[h_[0] for h_ in hist]),
+                                      cut=cur["cutoff_frequency"], pretend=cur["pretend_real"], bi=cur["band_indices"], classical=cur["classical"])
+            run.count("sequence step: " + what)
+            run.count("oracle-call-sequence", section="oracle")
+            if not ok_:
+                break
         api_cases.append(c)
         run.case(("api", name, msh, proj, repr(kw)), nontrivial=True)
         run.count("api " + name)
@@ -628,6 +748,11 @@ def main(run):
             tpC, tC, fC, sC, cvC = run_tp(mesh, c["temps"], "C", **kw)
             tpP, tP, fP, sP, cvP = run_tp(mesh, c["temps"], "Py", **kw)
             zpe_impl = tpC.zero_point_energy
+            for lang_, got_ in (("C", (tC, fC, sC, cvC)), ("Py", (tP, fP, sP, cvP))):
+                if all(np.all(np.isfinite(np.asarray(a_, dtype="double"))) for a_ in got_):
+                    against_closed_form(run, units, "ThermalProperties.run(lang='%s')" % lang_, "closed-form", got_, c["fr"], c["w"], c["temps"], dict(lang=lang_, **info_s),
+                                        cut=c["cut"], pretend=c["pretend"], bi=c["bi"], classical=c["classical"])
+            run.count("oracle-closed-form", section="oracle")
             ncmp += 2
             if float(tpC.number_of_modes) != m_nmodes or float(tpC.number_of_integrated_modes) != m_nint:
                 run.broke("correspondence", "number_of_modes / number_of_integrated_modes: implementation %r / %r, model %r / %r" % (
